@@ -122,7 +122,7 @@ func (w *aWorld) fail(prop, oracle, detail string) {
 // weights per property: which parties are active.
 var aWeights = map[string]map[string]int{
 	"C01": {"honest": 8, "unauth": 8, "dupcreate": 3, "replay": 3, "stale": 3},
-	"C02": {"honest": 6, "fork": 8, "dupcreate": 4, "unpub": 3, "replay": 1, "loop": 2}, // loop: an earlier competitor that is skipped for re-using a commitment must not stop later ones (seedR-C02)
+	"C02": {"honest": 6, "fork": 8, "dupcreate": 4, "unpub": 3, "replay": 1},
 	"C03": {"honest": 8, "fork": 4, "baddelta": 6, "window": 3, "loop": 3, "replay": 3, "dupcreate": 1, "unauth": 2},
 	"C04": {"honest": 8, "deactivate": 4, "recover": 4, "fork": 3, "stale": 4, "replay": 3, "unauth": 2, "dupcreate": 2},
 	"C05": {"unpub": 2, "honest": 4, "window": 12, "fork": 1},
